@@ -151,7 +151,50 @@ unhex(const char * tok, size_t * len, size_t extra)
 /* ---- the user callback ---- */
 struct cbctx {
 	int ncalls;
+	uint8_t * reqbody;	/* the request body lent to the library, until the callback is invoked */
+	size_t reqbodylen;
 };
+
+/* http.h: "The provided request body buffer (if any) must remain valid until the callback is
+ * invoked."  That is the ONLY thing the caller lends: the request structure, the method and path
+ * strings, the header array and every header string are arguments of http_request() and are the
+ * caller's again when it returns.  They are overwritten and released right then (the pointers
+ * inside the overwritten structure no longer point anywhere); the body is overwritten and released
+ * on entry to the callback, or after http_request_cancel() has returned.
+ * (The address list is NOT touched: http.h is silent about it and http.c hands it to
+ * network_connect(), whose contract keeps it borrowed until the connection attempt is over.) */
+static void
+scribble_release(void * p, size_t n)
+{
+
+	if (p == NULL)
+		return;
+	drv_scribble(p, n);
+	__real_free(p);
+}
+
+static void
+request_args_done(struct http_request * req, char * method, char * path, struct http_header * rh, size_t nh)
+{
+	size_t i;
+
+	for (i = 0; i < nh; i++) {
+		scribble_release((void *)(uintptr_t)rh[i].header, strlen(rh[i].header) + 1);
+		scribble_release((void *)(uintptr_t)rh[i].value, strlen(rh[i].value) + 1);
+	}
+	scribble_release(rh, nh * sizeof(struct http_header));
+	scribble_release(method, strlen(method) + 1);
+	scribble_release(path, strlen(path) + 1);
+	drv_scribble(req, sizeof(*req));
+}
+
+static void
+request_body_done(struct cbctx * c)
+{
+
+	scribble_release(c->reqbody, c->reqbodylen);
+	c->reqbody = NULL;
+}
 
 static int
 callback(void * cookie, struct http_response * res)
@@ -160,6 +203,7 @@ callback(void * cookie, struct http_response * res)
 	size_t i;
 
 	c->ncalls++;
+	request_body_done(c);
 	if (res == NULL) {
 		puts_(" cb=null");
 		return (0);
@@ -254,7 +298,7 @@ run_case(char ** tok, int ntok)
 	struct sock_addr sa;
 	struct sockaddr_in sin;
 	struct sock_addr * sas[2];
-	struct cbctx ctx = {0};
+	struct cbctx ctx = {0, NULL, 0};
 	size_t l, nh = 0, i;
 	char * method, * path;
 	uint8_t * reqbody;
@@ -324,6 +368,8 @@ run_case(char ** tok, int ntok)
 	req.headers = rh;
 	req.bodylen = reqbodylen;
 	req.body = reqbodylen ? reqbody : NULL;
+	ctx.reqbody = reqbody;
+	ctx.reqbodylen = reqbodylen;
 
 	memset(&sin, 0, sizeof(sin));
 	sin.sin_family = AF_INET;
@@ -346,11 +392,15 @@ run_case(char ** tok, int ntok)
 		 * host name to verify): the request is cancelled as soon as it exists, so no TLS
 		 * is spoken; what is observed is the set-up and the release of everything it made.
 		 */
-		H = https_request(sas, &req, limit, callback, &ctx, "host.example");
+		char * host = (char *)unhex("686f73742e6578616d706c65", &l, 1);	/* "host.example" */
+		H = https_request(sas, &req, limit, callback, &ctx, host);
+		request_args_done(&req, method, path, rh, nh);
 		puts_("req=");
 		puthex(wh.sent, wh.sentlen);
 		if (H != NULL)
 			http_request_cancel(H);
+		request_body_done(&ctx);
+		scribble_release(host, strlen(host) + 1);
 		puts_(H == NULL ? " ret=null" : " ret=ok");
 		putnum(" cbs=", (unsigned long long)ctx.ncalls);
 		puts_(H == NULL ? " end=done" : " end=cancelled");
@@ -359,7 +409,9 @@ run_case(char ** tok, int ntok)
 #endif
 	(void)use_https;
 	H = http_request(sas, &req, limit, callback, &ctx);
+	request_args_done(&req, method, path, rh, nh);
 	if (H == NULL) {
+		request_body_done(&ctx);
 		/* nothing may be registered: one spin of the loop must find nothing to do */
 		puts_("req=");
 		puthex(wh.sent, wh.sentlen);
@@ -382,6 +434,7 @@ run_case(char ** tok, int ntok)
 		}
 		if (ctx.ncalls == 0 && rc == 0 && wh.stalled) {
 			http_request_cancel(H);
+			request_body_done(&ctx);
 			end = "cancelled";
 		} else if (rc != 0) {
 			/*
@@ -392,6 +445,7 @@ run_case(char ** tok, int ntok)
 			end = "error";
 			if (ctx.ncalls == 0 && wh_is_live(H)) {
 				http_request_cancel(H);
+				request_body_done(&ctx);
 				end = "error-cancelled";
 			}
 		} else if (ctx.ncalls == 0)
